@@ -68,6 +68,12 @@ class CallMixin:
         if isinstance(e.func, ast.Name) and e.func.id in SPEC_NAMES \
                 and e.func.id not in self.frame.locals:
             return self.spec_call(e.func.id, e)
+        if isinstance(e.func, ast.Name) and e.func.id in ('eval', 'exec') \
+                and e.func.id not in self.frame.locals:
+            sink = self.reg.externals.get(('sink', e.func.id))
+            if sink is None:
+                raise Unsupported(f'{e.func.id}() is not a declared sink')
+            return sink(self, e)
         if isinstance(e.func, ast.Attribute) and e.func.attr == 'update' and len(e.args) == 1 \
                 and not e.keywords and isinstance(e.args[0], (ast.Dict, ast.List, ast.Tuple, ast.Set)):
             r = self.update_with_literal(e)
